@@ -1,7 +1,7 @@
 """Engines for the concurrent properties C03, C05, C09: controlled schedules of the real ThreadedRodeo
 (harness/concdriver) validated event by event against Conc.step (runner/creplay), plus the driver's monitors,
 plus (thorough tier) a free-running stress run whose monitors are the failing-input search."""
-import os, subprocess, time, random, json
+import os, re, subprocess, time, random, json
 
 ROOT = os.path.dirname(os.path.dirname(os.path.abspath(__file__)))
 TARGET = os.path.join(ROOT, "build", os.environ.get("VERIF_ALT", "alt"), "target") if os.environ.get("VERIF_REPO") else os.path.join(ROOT, "build", "target")
@@ -130,9 +130,9 @@ def run_driver(profile, cases_file, trace_file, timeout_ms=None):
         break
     return mon_all
 
-def replay_one(case_line, work, tag, profiles=("debug", "release")):
+def replay_one(case_line, work, tag, profiles=("debug", "release"), srexe=None):
     cf = os.path.join(work, f"{tag}.conc"); open(cf, "w").write(case_line + "\n")
-    res = {"bad": [], "monitors": []}
+    res = {"bad": [], "monitors": [], "sync": []}
     for prof in profiles:
         tf = os.path.join(work, f"{tag}.{prof}.trace")
         mons = run_driver(prof, cf, tf)
@@ -140,6 +140,11 @@ def replay_one(case_line, work, tag, profiles=("debug", "release")):
         subprocess.run([CREPLAY, cf, tf, rep], timeout=600)
         res["bad"] += [f"[{prof}] {l.strip()}" for l in open(rep) if l.startswith("BAD")]
         res["monitors"] += [f"[{prof}] {m}" for m in mons]
+        if srexe:
+            so = os.path.join(work, f"{tag}.{prof}.sync")
+            subprocess.run([srexe, tf, so], stdout=subprocess.DEVNULL, stderr=subprocess.DEVNULL, timeout=600)
+            if os.path.exists(so):
+                res["sync"] += [f"[{prof}] {l.strip()[:600]}" for l in open(so) if l.startswith(("SRACE", "SREJECT"))]
     return res
 
 def shrink_schedule(case_line, work, still_fails):
@@ -212,6 +217,31 @@ def engine(prop, spec, tier, seed, work):
                         nontrivial.add(cur)
                 elif l.startswith("RET ") and cur and (" E:" in l):
                     nontrivial.add(cur)
+    sync_stats = None
+    if spec.get("sreplay"):
+        # C05's data-race clause: every real trace must be an execution of Sync.v's release/acquire skeleton under the
+        # orderings extracted from the source in this run, and the view machine must flag no race on it
+        srdir = os.path.join(work, "sreplay")
+        coqdir = os.environ.get("VERIF_COQ_DIR", os.path.join(ROOT, "coq"))
+        r = subprocess.run([os.path.join(ROOT, "runner", "sreplay", "build.sh"), srdir, coqdir], stdout=subprocess.PIPE, stderr=subprocess.STDOUT, text=True, timeout=900)
+        if r.returncode != 0:
+            problems.append(("driver", None, f"sreplay does not build: {r.stdout[-400:]}"))
+        else:
+            sync_stats = {"SOK": 0, "SREJECT": 0, "SRACE": 0, "SSKIP": 0, "labels": 0}
+            for prof in ("debug", "release"):
+                tf = os.path.join(work, f"all.{prof}.trace"); so = os.path.join(work, f"all.{prof}.sync")
+                r = subprocess.run([os.path.join(srdir, "sreplay"), tf, so], stdout=subprocess.PIPE, stderr=subprocess.STDOUT, text=True, timeout=3000)
+                if r.returncode != 0 or not os.path.exists(so):
+                    problems.append(("driver", None, f"sreplay crashed: {r.stdout[-300:]}")); continue
+                for l in open(so):
+                    q = l.split(" ", 2)
+                    if q[0] in sync_stats:
+                        sync_stats[q[0]] += 1
+                    if q[0] == "SOK":
+                        m_ = re.search(r"labels=(\d+)", l); sync_stats["labels"] += int(m_.group(1)) if m_ else 0
+                    elif q[0] in ("SREJECT", "SRACE"):
+                        # a case already reported by the SC replay (e.g. TIMEOUT) is not reported twice
+                        problems.append(("sync", q[1], {"profile": prof, "line": l.strip()[:600]}))
     stress = None
     if True:
         # free-running threads (no parking): the failing-input search for interleavings finer than the hook points
@@ -230,13 +260,20 @@ def engine(prop, spec, tier, seed, work):
     first = next((p for p in problems if p[1] in by_id), None)
     if first:
         cid = first[1]
+        srexe = os.path.join(work, "sreplay", "sreplay") if first[0] == "sync" else None
         def fails(cl):
-            r = replay_one(cl, work, "shrink")
+            r = replay_one(cl, work, "shrink", srexe=srexe)
+            if srexe:
+                return bool(r["sync"])
             return bool(r["bad"]) or any((m.split("] ", 1)[-1].split(" ", 3) + ["", "", ""])[2] in mons_wanted for m in r["monitors"])
         small = shrink_schedule(by_id[cid], work, fails) if fails(by_id[cid]) else by_id[cid]
-        r = replay_one(small, work, "final")
+        r = replay_one(small, work, "final", srexe=srexe)
         replay = {"case": small, "original_case": by_id[cid], "trace_disagreements": r["bad"], "monitors": r["monitors"],
                   "how_to_replay": "harness concdriver run <file with this CONC line> <trace>; runner creplay <cases> <trace> <report>"}
+        if srexe:
+            replay["sync_replay"] = r["sync"]
+            replay["sync_race_on_real_trace"] = any("SRACE" in x for x in r["sync"])
+            replay["how_to_replay"] += "; runner/sreplay/build.sh <dir> && <dir>/sreplay <trace> <out>  (the trace of this case through the extracted Sync.step under the orderings of the source)" 
     ev = {"evaluations": 2 * len(cases), "distinct_nontrivial": len(nontrivial),
           "rule": "controlled schedules (uniform / runs / lock-step / few-preemption) of 2-4 threads over 8 program families (same-string races, same-shard and cross-shard different strings, tiny blocks, last-key races, limits near usage, racing limit changes, readers vs writers), each run on the debug and the release build; "
                   "non-trivial = the schedule made at least one compare-and-swap fail or a call return an error; every trace is replayed through Conc.step",
@@ -245,6 +282,8 @@ def engine(prop, spec, tier, seed, work):
         ev["free_running"] = stress
     if retried:
         ev["timeouts_retried_alone_with_60s"] = retried
+    if sync_stats is not None:
+        ev["sync_replay"] = dict(sync_stats, rule="every trace mapped to Sync.label's and run through the extracted Sync.step under the orderings extracted in this run: SOK = accepted and race-free")
     if replay:
         ev["_replay"] = replay
     return ev, problems, {}
@@ -255,6 +294,6 @@ def register(PROPS):
                                 "the point-granularity argument of DESIGN.md section 4.4 (between two points a thread touches shared mutable state at most once) is made on paper",
                                 "DashMap is modelled as an association list guarded by per-shard reader-writer locks; its internals are not verified"]}
     PROPS["C03"] = dict(common, monitors=["C03", "C07"])
-    PROPS["C05"] = dict(common, monitors=["C05"], orderings=True, props_extra=["C05R"],
+    PROPS["C05"] = dict(common, monitors=["C05"], orderings=True, props_extra=["C05R"], sreplay=True,
                         trusted_extra=common["trusted_extra"] + ["C05 data-race clause: coq/Sync.v is a hand-written release/acquire view machine (promise-free; SeqCst treated as AcqRel; locks as release/acquire channels) running a hand-abstracted synchronisation skeleton of the arena; only the 16 atomic orderings and two textual-order facts are extracted from the source (tools/extract_orderings.py, which fails on any atomic access it cannot attribute)"])
     PROPS["C09"] = dict(common, monitors=["C09"], props_extra=["C09L"])
